@@ -375,6 +375,35 @@ class Model:
                 return c["args"][i]
         return None
 
+    def fn_or_role(self, name, rel, root, arm_regex):
+        """the anchor function `name`; when it was renamed or turned into a method, the unique function of the file that is reachable
+        from `root` (calls by name inside the file) and has a match arm whose pattern matches `arm_regex`"""
+        c = self.find_fns(name, rel)
+        if len(c) == 1:
+            return c[0]
+        fns = [g for g in self.fns(rel) if g.body is not None and not g.test]
+        reach, work = [], [g for g in fns if g.name == root]
+        while work:
+            g = work.pop()
+            if any(g is r for r in reach):
+                continue
+            reach.append(g)
+            names = {callee_name(cc) for cc in walk(g.body) if cc["k"] in ("Call", "MethodCall")}
+            gtxt = self.facts.text(rel, g.body["sp"])
+            for h in fns:
+                # a method is entered from its own impl, or from a function that names the impl's type
+                if h.name in names and (h.impl is None or h.impl == g.impl or re.search(r"\b" + re.escape(str(h.impl).split("<")[0]) + r"\b", gtxt)):
+                    work.append(h)
+        cands = []
+        for g in reach:
+            if g.name == root:
+                continue
+            if any(re.search(arm_regex, norm_ws(self.facts.text(rel, a["pat"]["sp"]))) for m in find(g.body, "Match") for a in m["arms"]):
+                cands.append(g)
+        if len(cands) == 1:
+            return cands[0]
+        raise AnalysisIncomplete(f"anchor function `{name}` in {rel} not found, and {len(cands)} functions reachable from {root} match its role")
+
     def opt_fn(self, name, rel=None, impl=None):
         try:
             return self.fn(name, rel, impl)
